@@ -766,6 +766,56 @@ func checkDistEntry(c *core.Ctx, p *packages.Package, d *declIndex, e distEntry)
 				}
 			}
 		}
+		// ---- R4b single-parameter setters (SetN, ...): Set<X>(v) must leave the object as the constructor builds it for
+		// the same parameters with <x> replaced by v (every cached constant refreshed from the new value)
+		core.EachFunc(p, func(_ *ast.File, sfd *ast.FuncDecl) {
+			if sfd.Recv == nil || core.RecvTypeName(sfd) != e.T || !strings.HasPrefix(sfd.Name.Name, "Set") || sfd.Name.Name == "SetParameters" {
+				return
+			}
+			if sfd.Type.Params == nil || len(sfd.Type.Params.List) != 1 || len(sfd.Type.Params.List[0].Names) != 1 {
+				return
+			}
+			pn := sfd.Type.Params.List[0].Names[0].Name
+			isCtorParam := false
+			for _, q := range e.params {
+				isCtorParam = isCtorParam || q == pn
+			}
+			if !isCtorParam {
+				return
+			}
+			cfgS := vn.Config{Pkg: p, TypeName: "Real64", Spec: distSpec, InlineOps: inlineOps, Decl: d.find, ParamNames: true, MaxDepth: 6,
+				RecvStruct: ok.obj, RecvFresh: true, IntSyms: map[string]bool{pn + "_new": true, pn: true},
+				ParamValues: map[string]vn.Value{pn: sym.Sym(pn + "_new")}}
+			for k := range c14IntSyms {
+				cfgS.IntSyms[k] = true
+			}
+			sps, und := vn.Run(cfgS, sfd)
+			if und != nil {
+				c.Unknown("C14.R4", cons, sfd.Name.Name+" interpreted"+vtag, und.Pos, sfd.Name.Name+" left the interpreter's idiom set: "+und.Msg)
+				return
+			}
+			want := vn.SubstValue(vn.DeepCopy(ok.obj, nil), map[*sym.Atom]*sym.Term{sym.SymAtom(pn): sym.Sym(pn + "_new")}, nil).(*vn.StructVal)
+			nGood := 0
+			for _, pa := range sps {
+				if _, isErr := pa.Ret.(*vn.ErrVal); isErr || pa.Panic || pa.RecvObj == nil {
+					continue
+				}
+				nGood++
+				bad := ""
+				for _, f := range want.FieldNames() {
+					if _, isB := want.Fields[f].(*vn.BoolVal); isB {
+						continue
+					}
+					if !sameValue(want.Fields[f], pa.RecvObj.Fields[f]) {
+						bad = fmt.Sprintf("after %s(v) the field %s is %s, the constructor called with that value gives %s", sfd.Name.Name, f, showValue(pa.RecvObj.Fields[f]), showValue(want.Fields[f]))
+						break
+					}
+				}
+				c.Check(bad == "", "C14.R4", cons, sfd.Name.Name+" builds the object the constructor builds ["+shortConds(pa.CondString())+"]"+vtag, sfd.Pos(),
+					bad+": a cached constant is stale after the parameter changed, so the mass/density no longer sums to one")
+			}
+			c.Check(nGood > 0, "C14.R4", cons, sfd.Name.Name+" has a successful path"+vtag, sfd.Pos(), "no successful path")
+		})
 		// ---- R4 parameter order: SetParameters(GetParameters(d)) = d and ImportConfig(ExportConfig(d)) = d on the fields
 		if gp := findMethodDecl(p, e.T, "GetParameters"); gp != nil {
 			var elems map[string]*sym.Term
